@@ -266,6 +266,11 @@ class DeepSearch(dict):
 
     def __search_str(self, obj, item, parent):
         """Compare strings"""
+        wanted = item.pattern if self.use_regexp else item
+        if isinstance(wanted, (str, bytes)) and not isinstance(obj, type(wanted)):
+            # a str item can not occur in a bytes object (nor the reverse): `item in obj`
+            # and `pattern.search(obj)` would raise TypeError
+            return
         obj_text = obj if self.case_sensitive else obj.lower()
 
         is_matched = False
